@@ -32,7 +32,7 @@ Your task: make ONE small, realistic change to the library source under {wt}/gfa
   2. the property above is violated by the changed code;
   3. the violation needs something SPECIFIC to manifest — an unusual input, a particular combination of orientations / record types, a multi-step sequence of operations, a particular arrival order of lines, two cooperating code sites that each look fine alone — NOT something that ordinary use would expose at once (so: do not break the common path).
 
-Then write a demonstration: a small standalone Python program {wt}/demo_{pid}.py that uses only the public behaviour of gfapy, exits with status 0 on the ORIGINAL code and with a non-zero status (assertion failure) on the CHANGED code. Verify both yourself: run it with `cd {wt} && PYTHONPATH={wt} /venv/bin/python demo_{pid}.py` on the changed tree, then `git stash` your change to the gfapy sources (keep the demo file), run the demo again on the original tree, and `git stash pop`.
+Then write a demonstration: a small standalone Python program {wt}/demo_{pid}.py that uses only the public behaviour of gfapy, exits with status 0 on the ORIGINAL code and with a non-zero status (assertion failure) on the CHANGED code. Verify both yourself: run it with `cd {wt} && PYTHONPATH={wt} /venv/bin/python demo_{pid}.py` on the changed tree, then save your change with `git diff -- gfapy > {wt}/patch_{pid}.diff`, take it out with `git apply -R {wt}/patch_{pid}.diff`, run the demo again on the original tree, and put the change back with `git apply {wt}/patch_{pid}.diff`. Do NOT use `git stash`: the stash is shared by all worktrees of the repository and other volunteers work next to you.
 
 Finally produce the patch: `cd {wt} && git diff -- gfapy > {wt}/patch_{pid}.diff` (the diff must contain only changes under gfapy/).
 
